@@ -73,7 +73,9 @@ func (c *chain) mine(gap uint64, ntx, perTx int, removedMask, foreignMask uint64
 	return b
 }
 
-func blockHash(n uint64) common.Hash { return common.BigToHash(new(big.Int).SetUint64(0xb10c000000000000 | n)) }
+func blockHash(n uint64) common.Hash {
+	return common.BigToHash(new(big.Int).SetUint64(0xb10c000000000000 | n))
+}
 
 func (c *chain) ethLog(b *cblock, l clog) ethtypes.Log {
 	addr := contractAddr
